@@ -253,6 +253,17 @@ func c01Type5Key(c *h.Ctx, chalLens []int, batches []int, sk *oprf.PrivateKey) {
 				break
 			}
 		}
+		tokensIndependent(c, toks, det)
+		for j, tok := range toks { // still valid after the spare capacity behind each was written
+			if iss.Verify(tok) != nil {
+				det["index"] = j
+				c.Violation("token i still verifies after the caller appended to the other tokens of the batch", det)
+				break
+			}
+			if j > 8 && !c.Thorough() {
+				break
+			}
+		}
 		c.Count("type5:batch-size", 1, "")
 	}
 }
@@ -449,6 +460,51 @@ func runC01(c0 *h.Ctx) {
 			}
 			c01Type3(c, chalLens, nameLens)
 			c01InFlight(c)
+			c01Type3Volume(c)
 		}
 	})
+}
+
+// c01Type3Volume: many honest type-3 requests from one client to one issuer, each with a fresh request blind: every
+// one must be accepted (the request signature's two scalars take every shape, leading zero bytes included), and the
+// run must complete for a sample of them.
+func c01Type3Volume(c *h.Ctx) {
+	n := 320
+	if c.Thorough() {
+		n = 4000
+	}
+	name := "origin.example"
+	env := newT3(c, 1, rnd(c, 32), map[string][]byte{name: rnd(c, 48)})
+	client := type3.NewRateLimitedClientFromSecret(rnd(c, 48))
+	short := 0
+	for i := 0; i < n; i++ {
+		chal, nonce := rnd(c, 32), rnd(c, 32)
+		st, err := env.request(client, chal, nonce, rnd(c, 48), name)
+		det := map[string]any{"type": 3, "leg": "volume", "i": i}
+		if err != nil {
+			det["err"] = err.Error()
+			c.Violation("honest request creation fails", det)
+			return
+		}
+		req := st.Request()
+		wire := req.Marshal()
+		if len(req.Signature) == 96 && (req.Signature[0] == 0 || req.Signature[48] == 0) {
+			short++
+		}
+		resp, _, err := env.issuer.Evaluate(wire)
+		if err != nil {
+			det["err"], det["request"] = err.Error(), h.Hex(wire)
+			c.Violation("the issuer fails on an honest request that crossed the wire", det)
+			return
+		}
+		if i%40 == 0 {
+			tok, err := st.FinalizeToken(append([]byte{}, resp...))
+			if err != nil || !pssOK(&env.key.PublicKey, cat(u16b(3), nonce, sha256Bytes(chal), env.tokenKeyID), tok.Authenticator) {
+				c.Violation("the client fails to finalize an honest response", det)
+				return
+			}
+		}
+	}
+	c.Count("type3:volume-runs", n, "")
+	c.Count("type3:volume-runs-with-a-leading-zero-signature-scalar", short, "")
 }
